@@ -7,6 +7,8 @@ mod run;
 mod c05;
 mod c06;
 mod c07;
+mod c10;
+mod gen;
 mod c18;
 mod c16;
 mod c15;
@@ -44,6 +46,7 @@ fn main() {
         "C05" => c05::run(&mut ctx),
         "C06" => c06::run(&mut ctx),
         "C07" => c07::run(&mut ctx),
+        "C10" => c10::run(&mut ctx),
         "C18" => c18::run(&mut ctx),
         "C16" => c16::run(&mut ctx),
         "C15" => c15::run(&mut ctx),
